@@ -153,6 +153,7 @@ type gmeWorld struct {
 	dials    map[string]int
 	dialFail bool
 	closed   bool
+	lastOpts *GCPMultiEndpointOptions // the object handed to the last accepted (re)configuration
 
 	viol     []vsched.Violation
 	poisoned bool
@@ -184,8 +185,10 @@ func newGMEWorld(s *vsched.Sched, cfg gmeCfg, menu []gmeOpt) *gmeWorld {
 	o := menu[cfg.Init]
 	w.dialFail = cfg.DialFail
 	var err error
+	built := o.build(cfg.R, cfg.D, w.dial)
+	w.lastOpts = built
 	th := s.Go("construct", func() {
-		w.gme, err = NewGCPMultiEndpoint(o.build(cfg.R, cfg.D, w.dial))
+		w.gme, err = NewGCPMultiEndpoint(built)
 	})
 	s.WaitQuiescent()
 	if !w.classify(th, "construct") {
@@ -309,6 +312,12 @@ func (w *gmeWorld) Ops() []string {
 	for i := range w.menu {
 		ops = append(ops, fmt.Sprintf("update(%d)", i))
 	}
+	for i, o := range w.menu {
+		if o.Invalid == "" {
+			// the caller edits the options object it submitted before and submits it again
+			ops = append(ops, fmt.Sprintf("reupdate(%d)", i))
+		}
+	}
 	if w.dialFail {
 		ops = append(ops, "dialFail(off)")
 	} else {
@@ -340,7 +349,26 @@ func (w *gmeWorld) Do(op string) {
 	case "update":
 		var i int
 		fmt.Sscanf(args[0], "%d", &i)
-		w.doUpdate(w.menu[i])
+		w.doUpdate(w.menu[i], nil)
+	case "reupdate":
+		var i int
+		fmt.Sscanf(args[0], "%d", &i)
+		o := w.menu[i]
+		opts := w.lastOpts
+		for n := range opts.MultiEndpoints {
+			if _, ok := o.MEs[n]; !ok {
+				delete(opts.MultiEndpoints, n)
+			}
+		}
+		for n, l := range o.MEs {
+			if meo, ok := opts.MultiEndpoints[n]; ok {
+				meo.Endpoints = append([]string{}, l...)
+			} else {
+				opts.MultiEndpoints[n] = &multiendpoint.MultiEndpointOptions{Endpoints: append([]string{}, l...), RecoveryTimeout: w.cfg.R, SwitchingDelay: w.cfg.D}
+			}
+		}
+		opts.Default = o.Default
+		w.doUpdate(o, opts)
 	case "dialFail":
 		w.dialFail = args[0] == "on"
 	case "close":
@@ -365,7 +393,7 @@ func (w *gmeWorld) Do(op string) {
 	}
 }
 
-func (w *gmeWorld) doUpdate(o gmeOpt) {
+func (w *gmeWorld) doUpdate(o gmeOpt, reuse *GCPMultiEndpointOptions) {
 	before := w.routing()
 	dialsBefore := map[string]int{}
 	for k, v := range w.dials {
@@ -373,8 +401,12 @@ func (w *gmeWorld) doUpdate(o gmeOpt) {
 	}
 	var err error
 	var early map[string]string
+	submitted := reuse
+	if submitted == nil {
+		submitted = o.build(w.cfg.R, w.cfg.D, w.dial)
+	}
 	th := w.s.Go("update", func() {
-		err = w.gme.UpdateMultiEndpoints(o.build(w.cfg.R, w.cfg.D, w.dial))
+		err = w.gme.UpdateMultiEndpoints(submitted)
 		if err == nil && o.Invalid == "" {
 			// G2: before any monitor thread runs, routing already reflects the
 			// connectivity of the kept pools (this thread keeps running: no
@@ -424,6 +456,7 @@ func (w *gmeWorld) doUpdate(o gmeOpt) {
 	for k, v := range w.open {
 		oldOpen[k] = v
 	}
+	w.lastOpts = submitted
 	w.applyRef(o)
 	w.nontriv = true
 	// G2
